@@ -252,6 +252,34 @@ Theorem C13_history_independent : forall D (parse_die : cu -> Z -> res D) le us 
 Proof. exact @units_history_exact. Qed.
 Print Assumptions C13_history_independent.
 
+(* failed lookups in the history.  Scope: the property speaks of "all lookup orders"; a lookup that
+   FAILS (offset-exact lookup handed an offset outside the section, or one at which the unit
+   header parse raises: truncated header, unsupported version) is a lookup too, and the answers of
+   the valid ones must not depend on it.  Such a lookup leaves the object as it was ... *)
+Theorem C13_failed_lookup_changes_nothing : forall le stream size cus D (parse_die : cu -> Z -> res D) st o,
+  st_inv le stream cus parse_die st -> lookup_fails le stream size o = true ->
+  di_step parse_die le stream size st o = (st, snd (di_step parse_die le stream size di_init o)).
+Proof. exact @di_step_failing. Qed.
+Print Assumptions C13_failed_lookup_changes_nothing.
+
+(* ... so that in histories where failed lookups stand anywhere between valid ones, the valid ones
+   are answered by the stateless spec and the failed ones exactly as a fresh object answers them.
+   (Not covered: an offset-exact lookup at a non-unit offset whose bytes happen to PARSE as a unit
+   header - get_CU_at is documented as unvalidated and that garbage unit enters the cache.) *)
+Theorem C13_history_with_failed_lookups : forall D (parse_die : cu -> Z -> res D) le us h1 h2,
+  wf_units us = true ->
+  let stream := encode_units le us in
+  let size := zlen stream in
+  let cus := section_units us in
+  let ok := fun o => valid_op cus o || lookup_fails le stream size o in
+  forallb ok h1 = true -> forallb ok h2 = true ->
+  let st := fst (di_run parse_die le stream size di_init h1) in
+  snd (di_run parse_die le stream size st h2) =
+  map (fun o => if valid_op cus o then answer_spec parse_die cus size o
+                else snd (di_step parse_die le stream size di_init o)) h2.
+Proof. exact @units_history_with_failures. Qed.
+Print Assumptions C13_history_with_failed_lookups.
+
 (* an arbitrary offset inside the section resolves to the unit whose extent contains it *)
 Theorem C13_unit_containing_bytes : forall D (parse_die : cu -> Z -> res D) le us h r,
   wf_units us = true -> forallb (valid_op (section_units us)) h = true ->
@@ -352,4 +380,14 @@ Example C13_ex_units :
   wf_units ex_units = true /\ forallb (valid_op (section_units ex_units)) ex_history = true /\
   map cu_offset (section_units ex_units) = [0; 13; 46] /\
   option_map cu_offset (containing_spec (section_units ex_units) 45) = Some 13.
+Proof. vm_compute. repeat split; reflexivity. Qed.
+
+(* failing lookups that satisfy the hypothesis of C13_history_with_failed_lookups: truncated header in
+   the last byte, offset outside the section, the first unit's version field taken for a length *)
+Example C13_ex_failed_lookups :
+  let stream := encode_units true ex_units in
+  zlen stream = 72 /\
+  forallb (fun o => valid_op (section_units ex_units) o || lookup_fails true stream 72 o)
+          [OpAt 13; OpAt 71; OpContaining 50; OpDie 70 71; OpAt 100; OpAt 0; OpAt 4; OpAt 46] = true /\
+  map (lookup_fails true stream 72) [OpAt 71; OpDie 70 71; OpAt 100; OpAt 4; OpAt 46] = [true; true; true; true; false].
 Proof. vm_compute. repeat split; reflexivity. Qed.
